@@ -68,6 +68,9 @@ pub fn loc_display(l: &Loc) -> String {
 }
 
 fn num_f64(m: i64, e: i64) -> f64 {
+    if m == 0 && e == -999 {
+        return -0.0; // JsonModel: NegZero, the float "negative zero" (mathematically 0)
+    }
     format!("{}e{}", m, e).parse::<f64>().expect("decimal")
 }
 
